@@ -482,7 +482,7 @@ func parent(f gallina.Flags) {
 	}
 	defer os.RemoveAll(scratch)
 
-	nWork, snapRate, nHookKill, nSigKill, phases := 2, 60, 2, 1, 6
+	nWork, snapRate, nHookKill, nSigKill, phases := 2, 90, 2, 1, 6
 	if f.Tier == "thorough" {
 		nWork, snapRate, nHookKill, nSigKill, phases = 10, 1000, 8, 6, 7
 	}
@@ -561,8 +561,8 @@ func parent(f gallina.Flags) {
 		mu.Lock()
 		defer mu.Unlock()
 		id++
-		term := fmt.Sprintf("mkCase %d %s_cfg %s_ops %s_kinds %s_hist %s %s %d %s %s %s",
-			id, c.wname, c.wname, c.wname, c.wname, kTerm, over, nAcked, gallina.Bool(inflight), opened, gallina.List(ot))
+		term := fmt.Sprintf("mkCase %d %s_cfg %s_ops %s_trace %s_kinds %s_hist %s %s %d %s %s %s",
+			id, c.wname, c.wname, c.wname, c.wname, c.wname, kTerm, over, nAcked, gallina.Bool(inflight), opened, gallina.List(ot))
 		cases = append(cases, pendingCase{id, term})
 		meta.Case(id, desc)
 		meta.Evaluations++
@@ -591,7 +591,11 @@ func parent(f gallina.Flags) {
 			w = corpusMixedMerge()
 			rate = 0
 		} else {
-			w = genWorkload(gen.Fork(f.Seed, wi), fmt.Sprintf("w%d", wi), phases)
+			ph := phases
+			if f.Tier != "thorough" && wi%2 == 1 {
+				ph = 3 // quick tier: every second workload is short (its cases are cheap)
+			}
+			w = genWorkload(gen.Fork(f.Seed, wi), fmt.Sprintf("w%d", wi), ph)
 		}
 		wname := fmt.Sprintf("wl_%d", wi+1)
 		wlPath := filepath.Join(scratch, wname+".json")
@@ -633,6 +637,7 @@ func parent(f gallina.Flags) {
 		}
 		fmt.Fprintf(&pre, "Definition %s_cfg := mk_cfg %d %s.\n", wname, w.BlockRange, ooo)
 		fmt.Fprintf(&pre, "Definition %s_ops : list op := %s.\n", wname, gallina.List(opTexts))
+		fmt.Fprintf(&pre, "Definition %s_trace : list fsop := Eval vm_compute in (fs_trace %s_cfg %s_ops).\n", wname, wname, wname)
 		fmt.Fprintf(&pre, "Definition %s_kinds : list int := %s.\n", wname, listInts(kinds))
 		fmt.Fprintf(&pre, "Definition %s_hist : list hop := %s.\n", wname, gallina.List(hist))
 		meta.Hit("workloads")
@@ -720,7 +725,12 @@ func parent(f gallina.Flags) {
 		os.RemoveAll(refDir)
 	}
 	sort.Slice(cases, func(i, j int) bool { return cases[i].id < cases[j].id })
-	per := (len(cases) + 7) / 8
+	// starting coqc and loading the libraries costs more than evaluating a case: few shards
+	shards := 2
+	if len(cases) > 400 {
+		shards = 8
+	}
+	per := (len(cases) + shards - 1) / shards
 	if per < 1 {
 		per = 1
 	}
